@@ -381,7 +381,7 @@ impl Engine for Arith {
             "C01" => vec!["frac=0", "frac=w", "w128", "w128-big-operands", "neg-product-floored", "div-opposite-signs-with-remainder", "min-operand"],
             "C02" => vec!["overflow-high", "overflow-low", "fits", "zero-divisor", "min/-1ulp"],
             "C06" => vec!["tie-positive", "tie-negative", "int-bits=0", "int-bits=1", "frac=0", "overflow"],
-            "C18" => vec!["step-overflowed", "shift-amount>=width", "shift-negative-amount", "zero-divisor", "non-finite-float", "sum", "product", "from_str", "by-reference-form", "assign-form", "int-bits=0"],
+            "C18" => vec!["step-overflowed", "shift-amount>=width", "shift-negative-amount", "zero-divisor", "non-finite-float", "sum", "product", "empty-sum-or-product", "from_str", "by-reference-form", "assign-form", "int-bits=0"],
             "C07" => vec!["quotient-fits-but-trunc-division-overflows", "int-divisor-not-representable", "negative-remainder-corrected", "overflow", "min%-1ulp"],
             _ => vec![],
         }
@@ -588,7 +588,8 @@ fn program_strategy(stratum: Option<u16>) -> BoxedStrategy<Case> {
                         (pattern(wrapmodel::FROM_FIXED_SRC[sel as usize], ig), sel)
                     }
                     W_FROM_STR => (0, [10u128, 10, 2, 8, 16][(r1 % 5) as usize]),
-                    W_NEG | W_NOT | W_SUM | W_PRODUCT => (0, r2 & 1),
+                    W_NEG | W_NOT => (0, r2 & 1),
+                    W_SUM | W_PRODUCT => (0, (r2 & 1) | if (r2 >> 8) % 4 == 0 { 2 } else { 0 }),
                     _ => (0, 0),
                 };
                 prog.push((wop, x, y));
@@ -628,6 +629,9 @@ fn eval_program(c: &Case, chk: bool, kf: &Kf) -> Eval {
             note.push_str(&format!("{}:{}={} ", i, W_NAMES[*wop as usize % W_NAMES.len()], got.show()));
         }
         ev.class(W_NAMES[*wop as usize % W_NAMES.len()]);
+        if matches!(*wop, W_SUM | W_PRODUCT) && y & 2 != 0 {
+            ev.class("empty-sum-or-product");
+        }
         if *wop == W_SHIFT {
             let kl = vcore::INTS[(y & 0xff) as usize % 12].as_l();
             let amt = kl.val(*x);
